@@ -9,6 +9,7 @@
 #include <cstdint>
 #include <string>
 #include <vector>
+#include <functional>
 #include <map>
 
 namespace sim {
@@ -61,7 +62,9 @@ const std::map<std::string, long>& counters();                    // fired fault
 void count(const std::string& key, long n = 1);
 std::string classify(const std::string& path);                   // file class from name
 bool in_scope(const char* path);
-void passthrough(bool on);           // harness-internal I/O (snapshots, replay files) bypasses the layer
+void passthrough(bool on);
+// reader probes at syscall boundaries: called after every completed mutating call on a file of the run (not re-entrant)
+void set_hook(std::function<void(const std::string& cls, const std::string& kind, const std::string& path)> h);           // harness-internal I/O (snapshots, replay files) bypasses the layer
 
 // ---- images ------------------------------------------------------------------------
 std::string slurp(const std::string& path);                       // harness-side read, bypasses faults
